@@ -90,7 +90,9 @@ Fixpoint remap (vs : list (list nat)) (idx : list nat) : list nat :=
 Definition dimension_order (ds : list dimd) : list nat :=
   let n := length ds in
   if (2 <=? n) && existsb is_numarr ds then
-    (if n =? 3 then [1; 2; 0] else rev (seq 0 n))
+    (* dim_order[1:] + (dim_order[0],): the rotation for ANY number of dimensions (since the
+       repair of finding C01-numarr-four-axes; four or more used to be reversed) *)
+    seq 1 (n - 1) ++ [0]
   else seq 0 n.
 Definition permute (order : list nat) (l : list nat) : list nat :=
   map (fun i => nth i l 0) order.
